@@ -30,7 +30,7 @@ func TestReplay(t *testing.T) { pbt.Replay(t) }
 type Op struct {
 	Kind    string `json:"kind"` // update, write, idle
 	Request bool   `json:"req,omitempty"`
-	N       int    `json:"n,omitempty"`  // write: number of payloads; idle: milliseconds
+	N       int    `json:"n,omitempty"`   // write: number of payloads; idle: milliseconds
 	Par     bool   `json:"par,omitempty"` // run concurrently with the next op of this side
 }
 
